@@ -18,10 +18,57 @@ RULE = ("document sets generated from an abstract reference relation (self, para
         "serialisations of one relation must give the same table; distinct = distinct document set; non-trivial = >= 1 reference")
 
 
+def large_graph(run, sc, n_nodes):
+    """a plain but large document (more nodes than a 16-bit id holds) whose reference types are declared last:
+    the relation in the parse output and in the graph built from it is still exactly the declared one"""
+    import os
+    import pandas as pd
+    from opcua_tools import UAGraph
+    rng = run.rng
+    rts = {"Feeds": "ns=1;i=900001", "Drains": "ns=1;i=900002"}
+    declared = set()
+    written = {}
+    for _ in range(12):
+        a, b = rng.sample(range(n_nodes), 2)
+        t = rng.choice(sorted(rts))
+        declared.add(("ns=1;i=%d" % (1000 + a), "ns=1;i=%d" % (1000 + b), rts[t]))
+        fwd = rng.random() < 0.5
+        written.setdefault(a if fwd else b, []).append((t if rng.random() < 0.5 else rts[t], fwd, b if fwd else a))
+    out = ['<?xml version="1.0" encoding="utf-8"?>\n<UANodeSet xmlns="http://opcfoundation.org/UA/2011/03/UANodeSet.xsd"><NamespaceUris><Uri>urn:large</Uri></NamespaceUris>'
+           '<Models><Model ModelUri="urn:large" Version="1" PublicationDate="2020-01-01T00:00:00Z"/></Models>'
+           '<Aliases><Alias Alias="Feeds">ns=1;i=900001</Alias><Alias Alias="Drains">ns=1;i=900002</Alias></Aliases>']
+    for j in range(n_nodes):
+        refs = "".join('<Reference ReferenceType="%s"%s>ns=1;i=%d</Reference>' % (t, "" if fwd else ' IsForward="false"', 1000 + o) for t, fwd, o in written.get(j, []))
+        out.append('<UAObject NodeId="ns=1;i=%d" BrowseName="1:o%d"><DisplayName>o%d</DisplayName><References>%s</References></UAObject>' % (1000 + j, j, j, refs))
+    for nm, nid in rts.items():
+        out.append('<UAReferenceType NodeId="%s" BrowseName="1:%s"><DisplayName>%s</DisplayName><References/></UAReferenceType>' % (nid, nm, nm))
+    out.append("</UANodeSet>")
+    d = sc.sub("large")
+    path = os.path.join(d, "large.xml")
+    open(path, "w", encoding="utf-8").write("\n".join(out))
+    case = {"large_document": {"objects": n_nodes, "reference_types_declared_last": sorted(rts.values()), "declared": sorted(declared)}}
+    run.case({"large": n_nodes, "refs": len(declared)}, tag="large")
+    try:
+        G = UAGraph.from_file_list([path])
+    except Exception as e:  # noqa: BLE001
+        run.violation(case, {"what": "UAGraph.from_file_list raised on a closed, self-contained large document", "impl": type(e).__name__ + ": " + str(e)[:300]})
+        return
+    by_id = {int(i): str(n) for i, n in zip(G.nodes["id"], G.nodes["NodeId"])}
+    got = set()
+    for a, b, t in zip(G.references["Src"], G.references["Trg"], G.references["ReferenceType"]):
+        got.add(tuple(by_id.get(int(x), "<id %r has no node>" % (x,)) if not pd.isna(x) else "<NA>" for x in (a, b, t)))
+    if got != declared or len(G.references) != len(declared):
+        run.violation(case, {"what": "the graph's references table != the declared relation", "missing": sorted(declared - got)[:4], "invented": sorted(got - declared)[:4],
+                             "rows": len(G.references), "call": "UAGraph.from_file_list([file]).references"})
+
+
 def explore(run):
     rng = run.rng
     thorough = run.tier == "thorough"
     with minibase.Scratch() as sc:
+        large_graph(run, sc, 70000 if thorough else 33000)
+        if run.full():
+            return
         # corpus: finding D-C02a (fixed): a cross-file triple declared in both files
         n = 1200 if thorough else 90
         for i in range(n):
